@@ -46,21 +46,27 @@ package parser
 //@ modifies p.peekCount, p.buffer, strmLeft, strmDone, strmExp, strmLastT
 //@ ensures PInv(p) && SInv() && ErrOK(result1) && avail(p) <= old(avail(p))
 //@ ensures result1 == nil ==> !strmDone && p.peekCount == 0
+//@ ensures [wellformed-nodes] result1 == nil ==> ArgsOK(result0.Arguments)
 //@ loop 0: invariant PInv(p) && SInv() && p.peekCount == 0 && TokOK(next) && next.Type == strmLastT && avail(p) <= old(avail(p))
+//@ loop 0: invariant ArgsOK(args)
 //@ loop 0: decreases avail(p)
 
 //@ func (*Parser).parseAssign
+
 //@ requires PInv(p) && SInv() && Ready(p)
 //@ modifies p.peekCount, p.buffer, strmLeft, strmDone, strmExp, strmLastT
 //@ ensures PInv(p) && SInv() && ErrOK(result1) && avail(p) <= old(avail(p))
 //@ ensures result1 == nil ==> Ready(p)
+//@ ensures [wellformed-nodes] result1 == nil ==> result0.Value != nil && (typeIs(result0.Value, ast.Function) ==> ArgsOK(unbox(result0.Value, ast.Function).Arguments))
 
 //@ func (*Parser).parseTaskDependencies
 //@ requires PInv(p) && SInv() && Ready(p)
 //@ modifies p.peekCount, p.buffer, strmLeft, strmDone, strmExp, strmLastT
 //@ ensures PInv(p) && SInv() && ErrOK(result1) && avail(p) <= old(avail(p))
 //@ ensures result1 == nil ==> !strmDone && p.peekCount == 0
+//@ ensures [wellformed-nodes] result1 == nil ==> ArgsOK(result0)
 //@ loop 0: invariant PInv(p) && SInv() && p.peekCount == 0 && TokOK(next) && next.Type == strmLastT && avail(p) <= old(avail(p))
+//@ loop 0: invariant ArgsOK(dependencies)
 //@ loop 0: decreases avail(p)
 
 //@ func (*Parser).parseTaskOutputs
@@ -69,6 +75,8 @@ package parser
 //@ ensures PInv(p) && SInv() && avail(p) <= old(avail(p))
 //@ ensures [located] ErrOK(result1)
 //@ ensures result1 == nil ==> Ready(p)
+//@ ensures [wellformed-nodes] result1 == nil ==> ArgsOK(result0)
+//@ loop 0: invariant ArgsOK(outputs)
 //@ loop 0: invariant PInv(p) && SInv() && p.peekCount == 0 && TokOK(tok) && tok.Type == strmLastT && TokOK(next) && avail(p) <= old(avail(p))
 //@ loop 0: decreases avail(p)
 
@@ -85,10 +93,20 @@ package parser
 //@ modifies p.peekCount, p.buffer, strmLeft, strmDone, strmExp, strmLastT
 //@ ensures PInv(p) && SInv() && ErrOK(result1) && avail(p) <= old(avail(p))
 //@ ensures result1 == nil ==> Ready(p)
+//@ ensures [wellformed-nodes] result1 == nil ==> ArgsOK(result0.Dependencies) && ArgsOK(result0.Outputs)
 
 //@ func (*Parser).Parse
 //@ requires PInv(p) && SInv() && !strmDone && p.peekCount == 0
 //@ modifies p.peekCount, p.buffer, strmLeft, strmDone, strmExp, strmLastT
 //@ ensures [located] ErrOK(result1)
+//@ ensures [wellformed-nodes] result1 == nil ==> NodesOK(result0.Nodes)
 //@ loop 0: invariant PInv(p) && SInv() && p.peekCount == 0 && TokOK(next) && next.Type == strmLastT
+//@ loop 0: invariant NodesOK(tree.Nodes)
 //@ loop 0: decreases avail(p)
+
+// New starts the lexer goroutine behind the Tokeniser interface; the parser-side view of the token
+// stream is initialised for this input (the Tokeniser link is trusted, DESIGN.md section 5).
+//@ func New
+//@ trusted starts the lexer goroutine; initial state of the parser-side stream ghosts
+//@ modifies strmLeft, strmDone, strmExp, strmLastT, strmInput
+//@ ensures result != nil && fresh(result) && PInv(result) && SInv() && !strmDone && result.peekCount == 0 && strmInput == input
